@@ -37,12 +37,14 @@ TAMPERS_OUT = [
     "swap-change-spk-redeem-only-metadata", "foreign-wallet-change", "single-cosigner-change", "duplicated-cosigner-change",
     "change-wrong-path", "change-foreign-fingerprint", "change-quorum-lowered", "second-change-output", "spend-output-dressed-as-change",
     "change-one-wallet-key-rest-foreign", "change-foreign-keys-unwalkable-path", "change-key-count-differs-from-op-n",
+    "change-hash-under-wrong-template",
 ]
 TAMPERS_IN = [
     "input-prev-tx-altered", "input-witness-utxo-amount-with-sig", "input-foreign-script", "input-derivation-wrong-path",
     "input-derivation-foreign-fingerprint", "global-xpub-replaced", "input-witness-utxo-amount-no-sig(not demanded)",
     "input-legacy-p2sh-amount-via-witness-utxo", "input-foreign-redeem-script-with-witness-utxo",
     "later-input-foreign-key-under-known-path", "in-place-prev-tx-amount",
+    "input-p2wsh-foreign-witness-script-with-nonwitness-utxo", "input-both-utxo-forms-amount-mismatch",
 ]
 
 GATES = {
@@ -228,7 +230,7 @@ def out_meta(truth, secs_by_who_path, script, kind):
     return m
 
 
-def tampers(ctx, rng, raw, signed_raw, wallet, truth, change_pos, paths=None):
+def tampers(ctx, rng, raw, signed_raw, wallet, truth, change_pos, paths=None, prev_raws=None):
     """Yields (class, expectation, bytes)."""
     maps = rp.decode(raw)
     model = maps["tx"]
@@ -242,6 +244,15 @@ def tampers(ctx, rng, raw, signed_raw, wallet, truth, change_pos, paths=None):
             mo = copy_model(model)
             mo["outs"][change_pos]["script"] = spk
             yield f"swap-change-spk:{name}", "raise-or-not-change", rp.encode(with_tx(maps, mo))
+        # the genuine change script's hash placed under ANOTHER output template (metadata kept): P2TR / P2WPKH / P2PKH shaped
+        # outputs carrying sha256(script) or hash160(script) do not commit to the script - the coins would be burnt
+        cscript = [v for k, v in maps["outs"][change_pos] if k in (b"\x00", b"\x01")]
+        if cscript:
+            h256, h160 = hashlib.sha256(cscript[0]).digest(), hashlib.new("ripemd160", hashlib.sha256(cscript[0]).digest()).digest()
+            for spk in (b"\x51\x20" + h256, b"\x00\x14" + h160, b"\x76\xa9\x14" + h160 + b"\x88\xac", b"\x52\x20" + h256):
+                mo = copy_model(model)
+                mo["outs"][change_pos]["script"] = spk
+                yield "change-hash-under-wrong-template", "raise-or-not-change", rp.encode(with_tx(maps, mo))
         # metadata converted to redeem-script-only, output re-pointed to a foreign P2SH
         mo = copy_model(model)
         mo["outs"][change_pos]["script"] = b"\xa9\x14" + rng.randbytes(20) + b"\x87"
@@ -308,17 +319,22 @@ def tampers(ctx, rng, raw, signed_raw, wallet, truth, change_pos, paths=None):
         # among the keys (OP_m <cosigner keys> <foreign> OP_n CHECKMULTISIG): not the wallet's script (not even spendable)
         honest_ent = [(k[1:], v) for k, v in maps["outs"][change_pos] if k[:1] == b"\x02"]
         hk = sorted(s for s, _ in honest_ent)
-        for variant in ("surplus-last", "surplus-sorted-in", "key-missing"):
+        for variant in ("surplus-last", "surplus-sorted-in", "key-missing", "op-n-slot-other-opcode"):
             extra = ec.sec(ec.mul(rng.randrange(1, ec.N)))
+            n_slot = 0x50 + truth.n
             if variant == "surplus-last":
                 keys = hk + [extra]
             elif variant == "surplus-sorted-in":
                 keys = sorted(hk + [extra])
+            elif variant == "op-n-slot-other-opcode":
+                # all keys genuine, but the opcode where OP_n belongs is something else (OP_RETURN, another number, OP_NOP)
+                keys = hk
+                n_slot = rng.choice([c for c in (0x6A, 0x60, 0x51, 0x61, 0x50 + truth.n + 1) if c != 0x50 + truth.n])
             else:
                 if len(hk) < 2:
                     continue
                 keys = hk[:-1]
-            script = tc.script_bytes([0x50 + truth.m] + keys + [0x50 + truth.n, 0xAE])
+            script = tc.script_bytes([0x50 + truth.m] + keys + [n_slot, 0xAE])
             mo = copy_model(model)
             mo["outs"][change_pos]["script"] = truth.commit(script)
             mm = with_tx(maps, mo)
@@ -406,6 +422,23 @@ def tampers(ctx, rng, raw, signed_raw, wallet, truth, change_pos, paths=None):
             mm = with_tx(ms, ms["tx"])
             mm["ins"][k_in] = [((k, (int.from_bytes(v[:8], "little") + 1000).to_bytes(8, "little") + v[8:]) if k == b"\x01" else (k, v)) for k, v in ms["ins"][k_in]]
             yield name, exp, rp.encode(mm)
+    if kind == "p2wsh" and prev_raws:
+        # the witness UTXO replaced by the full previous transaction (BIP174 allows both forms), together with a FOREIGN
+        # witness script: whichever record describes the UTXO, the script has to be the one the UTXO commits to
+        foreign_ws = truth.script([ec.sec(ec.mul(rng.randrange(1, ec.N))) for _ in range(truth.n)], m=1)
+        mm = with_tx(maps, model)
+        mm["ins"][k_in] = [((b"\x00", prev_raws[k_in]) if k == b"\x01" else ((k, foreign_ws) if k == b"\x05" else (k, v))) for k, v in imap]
+        yield "input-p2wsh-foreign-witness-script-with-nonwitness-utxo", "must-raise", rp.encode(mm)
+        # both UTXO forms present and contradicting each other about the amount
+        prev, _ = tc.decode(prev_raws[k_in])
+        po = prev["outs"][model["ins"][k_in]["vout"]]
+        lied = {"amount": max(1, po["amount"] // 50), "script": po["script"]}
+        for order in ("witness-utxo-last", "witness-utxo-first"):
+            mm = with_tx(maps, model)
+            rest = [(k, v) for k, v in imap if k not in (b"\x00", b"\x01")]
+            both = [(b"\x00", prev_raws[k_in]), (b"\x01", tc.txout_bytes(lied))]
+            mm["ins"][k_in] = (both if order == "witness-utxo-last" else both[::-1]) + rest
+            yield "input-both-utxo-forms-amount-mismatch", "must-raise", rp.encode(mm)
     # foreign script on the input
     other = truth.script([ec.sec(ec.mul(rng.randrange(1, ec.N))) for _ in range(truth.n)])
     mm = with_tx(maps, model)
@@ -505,7 +538,7 @@ def one_scenario(ctx, rng, kind, m, n, network, n_in, layout, quick, shared_prev
         signed_raw = os_[1] if os_[0] == "ok" else None
     if kind == "p2sh":
         in_place_history(ctx, raw, wallet, truth)
-    for cls, exp, tb in tampers(ctx, rng, raw, signed_raw, wallet, truth, change_pos, paths=[f[3] for f in sc.funding]):
+    for cls, exp, tb in tampers(ctx, rng, raw, signed_raw, wallet, truth, change_pos, paths=[f[3] for f in sc.funding], prev_raws=[f[0].serialize() for f in sc.funding]):
         if ctx.out_of_time():
             return
         ctx.count("tamper:" + cls)
